@@ -2,7 +2,9 @@ package harness
 
 import (
 	"context"
+	"crypto/tls"
 	"fmt"
+	"net"
 	"strings"
 	"time"
 
@@ -28,6 +30,9 @@ type PlanC16 struct {
 	// CtxAtLast (slow writer only): each Receive gets a context whose deadline is the very instant
 	// at which the chunk holding the envelope's last byte arrives
 	CtxAtLast bool `json:"ctx_at_last,omitempty"`
+	// TLS: the transport is upgraded to TLS (SetEncryption) before the stream starts; the writer
+	// then speaks TLS too. Byte accounting on the link would count ciphertext and is not judged.
+	TLS bool `json:"tls,omitempty"`
 }
 
 const minEnvLen = 40
@@ -123,6 +128,7 @@ func genC16(t *simrt.Tape, tier string) interface{} {
 		p.PauseMs = 1 + t.Draw(2000)
 	}
 	p.Trace = t.Draw(4) == 0
+	p.TLS = t.Draw(4) == 0
 	if t.Draw(5) == 0 {
 		// a slow writer against a polling receiver: the envelope trickles in over several
 		// receive operations, each of which runs into its context deadline
@@ -173,6 +179,14 @@ func runC16(w *World, pi interface{}) {
 	if p.Trace {
 		cfg.TraceWriter = newDiscardTrace()
 	}
+	srvTLS, cliTLS := TLSConfigs()
+	if p.TLS {
+		if p.ClientSide {
+			cfg.TLSConfig = cliTLS
+		} else {
+			cfg.TLSConfig = srvTLS
+		}
+	}
 	ctx, cancel := context.WithTimeout(context.Background(), time.Hour)
 	defer cancel()
 	var rx lime.Transport
@@ -220,6 +234,36 @@ func runC16(w *World, pi interface{}) {
 		raw = c.(*simnet.Conn)
 		dataDir = raw.Link().BA
 	}
+	var wconn net.Conn = raw
+	if p.TLS {
+		// both ends switch to TLS before the stream starts
+		hs := NewFlag()
+		var herr error
+		go func() {
+			defer hs.Set()
+			var tc *tls.Conn
+			if p.ClientSide {
+				tc = tls.Server(raw, srvTLS)
+			} else {
+				tc = tls.Client(raw, cliTLS)
+			}
+			tc.SetDeadline(time.Now().Add(time.Minute))
+			herr = tc.Handshake()
+			tc.SetDeadline(time.Time{})
+			wconn = tc
+		}()
+		uctx, ucancel := context.WithTimeout(context.Background(), time.Minute)
+		uerr := rx.SetEncryption(uctx, lime.SessionEncryptionTLS)
+		ucancel()
+		hs.WaitFor(2 * time.Minute)
+		if uerr != nil || herr != nil {
+			w.Count("tls-upgrade-failed")
+			rx.Close()
+			raw.Close()
+			return
+		}
+		w.Count("tls-upgraded")
+	}
 	w.Armed = true
 	// when the chunk holding the closing brace of each envelope reaches the receiver (slow writer)
 	var lastAt []time.Duration
@@ -259,7 +303,7 @@ func runC16(w *World, pi interface{}) {
 	go func() {
 		stream := strings.Join(frames, "\n") + "\n"
 		if p.Glue {
-			raw.Write([]byte(stream))
+			wconn.Write([]byte(stream))
 			return
 		}
 		if len(p.WriteChunks) > 0 {
@@ -273,7 +317,7 @@ func runC16(w *World, pi interface{}) {
 				if k > len(stream) {
 					k = len(stream)
 				}
-				if _, err := raw.Write([]byte(stream[:k])); err != nil {
+				if _, err := wconn.Write([]byte(stream[:k])); err != nil {
 					return
 				}
 				stream = stream[k:]
@@ -284,7 +328,7 @@ func runC16(w *World, pi interface{}) {
 			return
 		}
 		for _, f := range frames {
-			if _, err := raw.Write([]byte(f + "\n")); err != nil {
+			if _, err := wconn.Write([]byte(f + "\n")); err != nil {
 				return
 			}
 		}
@@ -315,7 +359,7 @@ func runC16(w *World, pi interface{}) {
 		rcancel()
 		_, _, after := dataDir.Counters()
 		consumed := after - before
-		if consumed > L {
+		if consumed > L && !p.TLS {
 			w.Violate("C16.receive-consumed-more-than-limit", sig(i), "Receive #%d consumed %d bytes from the connection with a read limit of %d (envelope sizes %v)", i, consumed, L, p.Sizes)
 		}
 		if err != nil && expired && (p.RecvCtxMs > 0 || len(lastAt) > 0) {
@@ -370,7 +414,7 @@ func init() {
 		Run:    runC16,
 		MaxSim: 3 * time.Hour,
 		Rule: "plans = (read limit in {256,1000,4096,65536, default 8 MiB in the thorough tier}, 1-12 valid envelopes with exact encoded sizes drawn around the boundaries " +
-			"tiny / limit/2 / limit-2.. / limit-1,limit,limit+1 / between / 2*limit-1..+1 / above 2*limit / 10*limit at every position, receiver = accepted or dialled transport, with or without a TraceWriter, " +
+			"tiny / limit/2 / limit-2.. / limit-1,limit,limit+1 / between / 2*limit-1..+1 / above 2*limit / 10*limit at every position, receiver = accepted or dialled transport, with or without a TraceWriter, plain or upgraded to TLS before the stream, " +
 			"fragmentation mode, write chunking or a single glued write, late reader for coalescing, a slow writer against a polling receiver that calls Receive again after each expired receive context, or against receive contexts that end the very instant the envelope becomes complete); non-trivial = the real transport connected and at least one Receive ran; distinct = distinct (plan JSON, event-log hash)",
 	})
 }
